@@ -9,6 +9,7 @@
 #       reply = every datagram the transceiver sent (hex, blank separated); fh = Transceiver.fh as stored
 #       (HoppingParams.hsn, .maio, .ma in list order); rx/tx = get_rx_freq(fn) / get_tx_freq(fn): a number, None,
 #       or EXC:<class>
+from excname import exc_name
 import sys
 sys.dont_write_bytecode = True
 sys.path.insert(0, sys.argv[1])
@@ -21,7 +22,7 @@ def show(f, fn):
     try:
         v = f(fn)
     except Exception as e:
-        return "EXC:" + type(e).__name__
+        return "EXC:" + exc_name(e)
     return "None" if v is None else str(v)
 
 
@@ -46,7 +47,7 @@ def run_line(line):
     wh.Net.log.clear()
     reply = " ".join(sent) if sent else "-"
     if exc is not None:
-        reply += " EXC:" + type(exc).__name__
+        reply += " EXC:" + exc_name(exc)
     if trx.fh is None:
         fh = "N"
     else:
@@ -64,7 +65,7 @@ def main():
         try:
             print(run_line(line))
         except Exception as e:
-            print("HARNESS-EXC %s %s" % (type(e).__name__, e))
+            print("HARNESS-EXC %s %s" % (exc_name(e), e))
         sys.stdout.flush()
 
 
